@@ -22,8 +22,13 @@ def main(argv):
     seed = int(os.environ.get("VERIF_SEED", "0"))
     ctx = Ctx(pid, tier, seed)
 
-    # 1. build (library + proofs + driver)
-    ok, log = common.lean_build()
+    # 0. extraction: regenerate Lean data from /repo's working tree (atomic write)
+    ob = common.obligations_for(pid)
+    for ex in ob.get("extractors", []):
+        import subprocess
+        subprocess.run([sys.executable, os.path.join(os.path.dirname(os.path.abspath(__file__)), "extract", ex)], check=True)
+    # 1. build (this property's modules + driver)
+    ok, log = common.lean_build(ob.get("modules", []))
     if not ok:
         # an error inside Panoptica/Extracted is a broken extraction obligation; anything else is infrastructure
         broken = [l for l in log.splitlines() if "error" in l and "Extracted" in l]
@@ -33,7 +38,6 @@ def main(argv):
             return 2
         ctx.notes.append("extraction obligation failed: " + "; ".join(broken[:3]))
     # 2. audit
-    ob = common.obligations_for(pid)
     theorems = ob.get("theorems", [])
     bad_src = common.source_grep(ob.get("modules", []))
     axioms = common.audit_axioms(theorems, ob.get("modules", []))
